@@ -177,6 +177,24 @@ class CmdGen:
             labels.append("continuation")
         ctxkind, wrap = self.context()
         labels.append("ctx:" + ctxkind)
+        if self.k(4) == 0:
+            # the command names are bound elsewhere in the same source, but in scopes that are NOT visible from the
+            # command line (parameters / locals of another function, a comprehension variable, another class's
+            # attribute): the line still does not start with a bound name, so it is still a command
+            kind = self.pick(["params", "locals", "comprehension", "class-attr", "lambda", "nested-params"])
+            pre = {
+                "params": "def _p9(t, ok, fail=1, *emit, **sink):\n    return t\n",
+                "locals": "def _p9():\n    t = ok = fail = emit = sink = 1\n    return t\n",
+                "comprehension": "_c9 = [t for t in [1]] + [ok for ok, fail in [(1, 2)]] + [emit for emit in [3] for sink in [4]]\n",
+                "class-attr": "class _K9:\n    t = ok = fail = emit = sink = 1\n",
+                "lambda": "_l9 = lambda t, ok, fail, emit, sink: t\n",
+                "nested-params": "def _p9():\n    def _p8(t, ok, fail, emit, sink):\n        return ok\n    return _p8\n",
+            }[kind]
+            inner_wrap = wrap
+
+            def wrap(s, _pre=pre, _w=inner_wrap):          # noqa: F811
+                return _pre + _w(s)
+            labels.append("hidden-binding:" + kind)
         meta = {"segs": bare_segs, "joins": joins, "ctx": ctxkind}
         return wrap(bare), wrap(explicit), labels, ctxkind != "top" or len(segs) >= 2, meta
 
